@@ -36,6 +36,8 @@ pub fn program(cls: &str, errfile: u64) -> (String, String) {
             "err_type" => format!("module {m}\nstruct {s} {{ x: Missing }}\n"),
             "err_cycle" => format!("module {m}\nstruct {s} {{ x: int32 }}\nstruct Loop{m} {{ again: Loop{m} }}\n"),
             "err_redef" => format!("module {m}\nstruct {s} {{ x: int32 }}\nstruct Twice {{}}\nstruct Twice {{}}\n"),
+            // a type alias that takes the name of a struct
+            "err_redef_alias" => format!("module {m}\nstruct {s} {{ x: int32 }}\nstruct Twice {{}}\ntypealias Twice = string\n"),
             "err_rule" => format!("module {m}\nstruct {s} {{ x: tag(1) int32 }}\n"),
             "err_256" => {
                 let fields: Vec<String> = (0..256).map(|k| format!("  f{k}: Missing{k}")).collect();
